@@ -18,6 +18,9 @@
 // the same segment as the handshake, Gate-side reads in 1..k byte chunks, bodies up to 1 MiB
 // each way in random chunkings, non-canonical VarInts and trailing bytes inside the
 // handshake frame (must pass through untouched when no rewrite applies).
+//
+// eos_test.go adds the end-of-stream classes (one side ends its sending direction — half-close
+// or close — while the other direction is still in use), over real loopback TCP on both sides.
 package c31
 
 import (
